@@ -25,14 +25,14 @@ inductive Kind where
   | up (s r : Nat)        -- PARSEC_TERMDET_FOURCOUNTER_MSG_TYPE_UP, nb_sent / nb_received
   | down (res : Bool)     -- PARSEC_TERMDET_FOURCOUNTER_MSG_TYPE_DOWN, result
   | app                   -- an application (remote dependency activation) message
-  deriving DecidableEq, Repr, Inhabited
+  deriving Inhabited
 
 structure Packet where
   src : Nat
   dst : Nat
   kind : Kind
   held : Bool := false
-  deriving DecidableEq, Repr, Inhabited
+  deriving Inhabited
 
 structure Proc where
   st : St := .notReady
@@ -47,7 +47,7 @@ structure Proc where
   npa : Nat := 0           -- tp->nb_pending_actions
   opn : Nat := 0           -- messages started, not ended (environment)
   cbs : Nat := 0           -- tp->tdm.callback invocations
-  deriving DecidableEq, Repr, Inhabited
+  deriving Inhabited
 
 /-- history variables of one process (never read by the real part) -/
 structure PGhost where
@@ -59,7 +59,7 @@ structure PGhost where
   midS : Nat := 0          -- ... at the latest root decision
   midR : Nat := 0
   actT : Bool := false     -- had work at the latest root decision
-  deriving Repr, Inhabited
+  deriving Inhabited
 
 structure State where
   n : Nat
@@ -188,7 +188,6 @@ inductive Action where
   | rstart (k : Nat)                -- network delivers application message k: incoming_message_start
   | rend (q : Nat)                  -- incoming_message_end on q
   | deliver (k : Nat)               -- network delivers control message k: msg_dispatch
-  deriving Repr
 
 /-- application discipline: work appears on a workless process only before taskpool_ready or while
     an incoming message is being processed -/
